@@ -47,6 +47,7 @@ func (sc c12Script) body(c *explore.Ctx) {
 	var orig []byte
 	closedOK := false
 	cleanupFaultDuringCreate := false
+	randFailed := false
 	faultsIn := func(from int) (n int, ops []string) {
 		for _, cl := range mc.Calls[from:] {
 			if cl.Fault {
@@ -76,7 +77,18 @@ func (sc c12Script) body(c *explore.Ctx) {
 				case "new":
 					s, err = f.New(src)
 				case "rand":
-					s, err = f.CreateRandom(32)
+					if pf, ok := f.(*protectedmemory.SecretFactory); ok {
+						// the random source is one more primitive that may fail
+						s, err = pf.VerifCreateRandom(32, func(b []byte) (int, error) {
+							if mc.Armed && vsched.Choose(2, "rand.Read") != 0 {
+								randFailed = true
+								return 0, io.ErrUnexpectedEOF
+							}
+							return vrand.Read(b)
+						})
+					} else {
+						s, err = f.CreateRandom(32)
+					}
 				case "rand-readfail":
 					if pf, ok := f.(*protectedmemory.SecretFactory); ok {
 						s, err = pf.VerifCreateRandom(32, func(b []byte) (int, error) { return 0, io.ErrUnexpectedEOF })
@@ -90,7 +102,8 @@ func (sc c12Script) body(c *explore.Ctx) {
 				return
 			}
 			nf, ops := faultsIn(from)
-			failed := nf > 0 || step == "rand-readfail" && sc.impl == "protected"
+			failed := nf > 0 || randFailed || step == "rand-readfail" && sc.impl == "protected"
+			randFailed = false
 			switch {
 			case failed && err == nil:
 				c.Failf("degraded-secret", "%s: primitives %v failed during creation but the caller got a secret and no error", step, ops)
@@ -322,7 +335,6 @@ func c12Scripts(thorough bool) []c12Script {
 			)
 		}
 	}
-	out = append(out, c12Script{name: "protected/rand-readfail", impl: "protected", steps: []string{"rand-readfail"}})
 	return out
 }
 
